@@ -225,6 +225,10 @@ func (g *G) Doc() string {
 	case g.R.P(2) && !g.NoHuge:
 		return g.Deep(1000 + g.R.Intn(1500))
 	case g.R.P(550):
+		if g.R.P(100) {
+			// leading/trailing whitespace of every kind around the root
+			return g.R.Pick([]string{"\r", "\r\n", "\n", "\t", " ", "\r\n\t "}) + g.Object(d) + g.R.Pick([]string{"", "\r\n", " "})
+		}
 		return g.ws() + g.Object(d) + g.ws()
 	default:
 		s := g.Array(d)
